@@ -250,3 +250,52 @@ func afterStr(s, marker string) string {
 	}
 	return s[i+len(marker):]
 }
+
+// FactsC05 regenerates the facts about the rejection paths of Cipher.DecryptFromBuffer / Decrypt /
+// decryptMessage.
+func FactsC05(f *hc.Facts) {
+	okAll := true
+	n := 0
+	for _, fn := range []string{"Cipher.DecryptFromBuffer", "Cipher.Decrypt", "Cipher.decryptMessage"} {
+		fd := f.FuncDecl("crypto", fn)
+		if fd == nil || fd.Body == nil {
+			okAll = false
+			continue
+		}
+		ast.Inspect(fd.Body, func(nd ast.Node) bool {
+			if _, isLit := nd.(*ast.FuncLit); isLit {
+				return false
+			}
+			ret, isRet := nd.(*ast.ReturnStmt)
+			if !isRet {
+				return true
+			}
+			if len(ret.Results) == 1 { // return c.Decrypt(k, msg)
+				if _, isCall := ret.Results[0].(*ast.CallExpr); !isCall {
+					okAll = false
+				}
+				return true
+			}
+			if len(ret.Results) != 2 {
+				okAll = false
+				return true
+			}
+			if f.Src(ret.Results[1]) != "nil" {
+				n++
+				if f.Src(ret.Results[0]) != "nil" {
+					okAll = false
+				}
+			}
+			return true
+		})
+	}
+	f.Bool("errorReturnsNil", okAll && n >= 8, fmt.Sprintf("%d error returns in DecryptFromBuffer/Decrypt/decryptMessage, all with a nil result", n))
+	src := f.FuncSrc("crypto", "Cipher.decryptMessage")
+	f.Bool("checksKeyID", strings.Contains(src, "if k.ID != encrypted.AuthKeyID {\n\t\treturn nil,"), "crypto.Cipher.decryptMessage compares the key id first")
+	dsrc := f.FuncSrc("crypto", "Cipher.Decrypt")
+	f.Bool("checksMsgKey", strings.Contains(dsrc, "if msgKey != encrypted.MsgKey {\n\t\treturn nil,"), "crypto.Cipher.Decrypt compares the recomputed msg_key")
+	f.Str("decKeysSide", nthArg(f, "crypto", "Cipher.decryptMessage", "Keys", 2), "side argument of Keys in decryptMessage")
+	f.Str("decMsgKeySide", nthArg(f, "crypto", "Cipher.Decrypt", "MessageKey", 2), "side argument of MessageKey in Decrypt")
+	f.Bool("decSideIsFlipped", strings.Contains(dsrc, "side := c.encryptSide.DecryptSide()"), "Decrypt: side := c.encryptSide.DecryptSide()")
+	f.Bool("decryptSideFlips", strings.Contains(f.FuncSrc("crypto", "Side.DecryptSide"), "return s ^ 1"), "Side.DecryptSide = s ^ 1")
+}
